@@ -36,6 +36,27 @@ PROPS["C09"] = {
                     "strings.ToValidUTF8(s, \"\") = Utf8.toValid (Go's utf8 acceptance table)"],
 }
 
+PROPS["C08"] = {
+    "modules": ["SlogModel.Props.C08"],
+    "components": [("frame", 20000, 300000)],
+    "rule": "one case = one reader instance driven by a sequence of read / flush / flushall calls (offsets and emitted "
+            "records compared after every call); includes all 1-cut and (windowed) 2-cut splits of five short streams, random "
+            "cuts of random multi-line streams, tiny buffers that overflow, and TestRecordStart alone; distinct by the "
+            "op sequence; non-trivial = at least one record emitted or a TestRecordStart case",
+    "level_text": "Theorems C08_fragmentation (any two non-overflowing fragmentations of a stream emit the same records and reach "
+                  "the same state as the byte-fed reference framer), C08_no_overflow_of_prefixes (the side condition depends on the "
+                  "stream only), C08_flush_single_line (single-line valid records, any cuts, flush ticks anywhere: exactly the "
+                  "lines, once each, in order), C08_continuation and C08_next_start_emits (continuation lines stay attached), "
+                  "proved in Lean 4 for all streams / cuts / flush placements on a model of multilinereader.go whose derived "
+                  "offsets are compared with the real offsetSearch / offsetAppend after every call.",
+    "level_note": "Trusted: Lean kernel + 3 standard axioms; that processBuffer's index loop equals the byte-fed model is "
+                  "established by the differential run (all outputs and both offsets, every call), not by proof; flush timing of "
+                  "the real listener (read-deadline renewal) is represented by arbitrary flush placement.",
+    "partial": "the theorems assume no overflow handling is triggered (records shorter than the soft limit); the overflow branch "
+               "is covered by totality/differential only",
+    "assumptions": ["TCP delivers the byte stream in arbitrary fragments; each Read returns at most the free buffer space"],
+}
+
 NOT_APPLICABLE = {k: "check not built yet in this round (planned in DESIGN.md section 6); no claim is made" for k in
                   ["C%02d" % i for i in range(1, 20)]}
 
